@@ -88,3 +88,38 @@ Definition bstep (w : bworld) (o : bop) : res (bworld * option Z) :=
 Definition bstep_total (w : bworld) (o : bop) : bworld :=
   match bstep w o with Ok (w', _) => w' | Err _ => w end.
 Definition brun (w : bworld) (ops : list bop) : bworld := fold_left bstep_total ops w.
+
+(* ---------------------------------------------------------------------------------------------
+   One user's position in one bank, as a sequence of token-moving operations (C03 round trips).
+   Each element carries the bank state at that moment (other users may have changed totals,
+   limits, fee buckets in between — only the share values are held fixed by the theorem) and
+   the clock. The Z in the result is the number of tokens the user received (negative = paid). *)
+Inductive uop := UDeposit (n : Z) | UWithdraw (n : Z) | UBorrow (n : Z) | URepay (n : Z) | UWithdrawAll | URepayAll.
+
+Definition ustep (b : bank) (bl : balance) (now : Z) (o : uop) : res (balance * Z) :=
+  match o with
+  | UDeposit n => let* (_, bl') := increase_balance b bl now (of_int n) IncDepositOnly in Ok (bl', - n)
+  | URepay n => let* (_, bl') := increase_balance b bl now (of_int n) IncRepayOnly in Ok (bl', - n)
+  | UWithdraw n => let* (_, bl') := decrease_balance b bl now (of_int n) DecWithdrawOnly in Ok (bl', n)
+  | UBorrow n => let* (_, bl') := decrease_balance b bl now (of_int n) DecBorrowOnly in Ok (bl', n)
+  | UWithdrawAll => let* (_, bl', n) := withdraw_all b bl now in Ok (bl', n)
+  | URepayAll => let* (_, bl', n) := repay_all b bl now in Ok (bl', - n)
+  end.
+
+Fixpoint urun (bl : balance) (tok : Z) (l : list (uop * bank * Z)) : res (balance * Z) :=
+  match l with
+  | [] => Ok (bl, tok)
+  | (o, b, now) :: r => let* (bl', t) := ustep b bl now o in urun bl' (tok + t) r
+  end.
+
+Definition uop_amount_ok (o : uop) : Prop :=
+  match o with UDeposit n | UWithdraw n | UBorrow n | URepay n => 0 <= n | _ => True end.
+
+(* rounding allowance of one operation, scale 2^96 (i.e. divide by 2^96 for tokens) *)
+Definition uslack (asv lsv : Z) (o : uop) : Z :=
+  match o with
+  | UDeposit _ | URepay _ => 0
+  | UWithdraw _ | UBorrow _ => asv + lsv                  (* one ulp of each share value *)
+  | UWithdrawAll => ZERO_AMOUNT_THRESHOLD * ONE           (* forgiven liability dust < 0.0001 token *)
+  | URepayAll => ONE                                      (* one ulp of a token *)
+  end.
